@@ -193,6 +193,7 @@ func runC15(p *core.Prog, r *core.Result) {
 		"R15.11 a record that does not decode fails the load, every time: the persisted stamp (targetInfo.Data) is decoded only in code that runs while the project loads (function.load), never lazily from the up-to-date check or the evaluation - there the first failure would be reported once and later checks of the same target on the same Project would go on with the nil value the failed decode left behind (a nil dereference on a runner goroutine)",
 		"R15.12 a damaged record of a failed target is never an up-to-date one: the record written when the body fails is built from scratch (not from the loaded record) and sets nothing besides the documentation, the dependencies' stamps and the re-run flag, so a record whose flag is lost (the decoder ignores unknown member names: one damaged byte in \"rerun\" decodes without error) reads as never run",
 		"R15.13 a damaged record never crashes a build: a string read from a record (targetInfo.Data / Stamp, the sums kept in sourceFile.oldSum and runTarget.data, and the parameters they are handed to) is not sliced or indexed unless its length was looked at first - a stamp cut short still decodes as JSON, and an out-of-range slice on a runner goroutine kills the process",
+		"R15.14 a damaged record that still decodes never crashes the comparison: package diff, which is handed the decoded record and runs on a runner goroutine outside the decoder's recover, contains no unchecked type assertion on a value that comes in from outside - a parameter or one of the sequences the differ holds (every such assertion is comma-ok or guarded by one) - a record that decodes to a string where the current environment has a tuple otherwise panics the process",
 		"R15.7 record consumers outside the recover scope (load/upToDate/diffEnv of functions and sources) contain no unguarded len(x)-k / constant index on decoded data, no unchecked type assertion, and no reachable explicit panic other than the frozen internal-invariant one",
 	}
 	r.NotDecided = []string{"memory exhaustion from declared lengths (excluded by the property)", "stack depth of starlark Hash/Equal on deeply nested decoded data", "panics inside go.starlark.net (trusted)", "32-bit platforms: int(uint32) lengths >= 2^31 (needs > 2 GiB of input; outside the property's bound)"}
@@ -325,6 +326,7 @@ func runC15(p *core.Prog, r *core.Result) {
 	checkPersistedDecodedAtLoad(p, r, "R15.11")
 	checkFailureRecordCarriesNoStamp(p, r, "R15.12")
 	checkPersistedStringsNotSliced(p, r, "R15.13")
+	checkDiffAssertsChecked(p, r, "R15.14")
 
 	// ---- R15.10 no unbounded traversal of decoded values
 	checkUnboundedTraversals(p, r, "R15.10")
